@@ -14,7 +14,8 @@
    standard-object and t are SO and TT.
 
    Go iterates maps in an arbitrary order in two places: the list of not-ready classes in makeClassesReady
-   and the loop over all classes in classChanged.  Both orders are INPUTS of the step (rorder, corder):
+   and the loop over all classes in classChanged (which sorts what it collects, stably, by the length of the
+   inherit list: ties keep the map order).  Both orders are INPUTS of the step (rorder, corder):
    the theorems quantify over them, the correspondence run searches for one that explains the observation. *)
 From Coq Require Export List Bool Arith ZArith Lia.
 Export ListNotations.
@@ -172,9 +173,20 @@ Definition make_ready (w : world) (rorder : list nat) : world :=
   let l := filter (fun id => negb (readyb w id)) rorder in
   ready_loop (S (length l)) w l.
 
-(* classChanged(cc): every class (in map order) that inherits a class named like cc is merged again, once *)
+(* classChanged(cc) (repo_fixes/C12-2): the classes that inherit a class named like cc are collected in map
+   order, sorted (stable) by the length of their inherit list, then merged again, once each *)
+Definition inh_len (w : world) (id : nat) : nat :=
+  match get w id with Some c => length (co_inherit c) | None => 0 end.
+Fixpoint insert_by (f : nat -> nat) (x : nat) (l : list nat) : list nat :=
+  match l with
+  | [] => [x]
+  | y :: r => if Nat.leb (f x) (f y) then x :: l else y :: insert_by f x r
+  end.
+Definition sort_by (f : nat -> nat) (l : list nat) : list nat := fold_right (insert_by f) [] l.
+Definition stale_order (w : world) (n : nat) (corder : list nat) : list nat :=
+  sort_by (inh_len w) (filter (fun id => inherits w id n) corder).
 Definition class_changed (w : world) (n : nat) (corder : list nat) : world :=
-  fold_left (fun w id => if inherits w id n then fst (merge w id) else w) corder w.
+  fold_left (fun w id => fst (merge w id)) (stale_order w n corder) w.
 
 (* ---- generics ---------------------------------------------------------------------------- *)
 Definition get_gf (w : world) (k : nat) : gf := match lookup (gfs w) k with Some g => g | None => gf0 end.
